@@ -29,7 +29,7 @@ def obligations(tier):
         qlens = sorted(set([0, 1, bs - 1 - pad, bs - pad, bs - 1, bs, bs + 1, 2 * bs - 1 - pad, 2 * bs, 2 * bs + 6]))
         lens = list(range(0, 2 * bs + 7)) if tier == "thorough" else qlens
         for L in lens:
-            cand = sorted(set(x for x in (0, 1, bs - 1, bs, bs + 1, L - 1, L) if 0 <= x <= L))
+            cand = sorted(set(x for x in ((0, 1, bs - 1, bs, bs + 1, L - 1, L) if L in qlens else (0, bs, L)) if 0 <= x <= L))
             splits = set()
             for a_ in cand:
                 for b_ in cand:
@@ -37,9 +37,9 @@ def obligations(tier):
                         splits.add((a_, b_))
             if tier == "thorough":
                 # 2-chunk splits at every position that is special for the buffer logic (ends, block boundaries +-1,
-                # the padding threshold): <= 14 per length (every position would be
+                # the padding threshold): <= 7 per length (every position would be
                 # 49 000 CBMC runs; the buffering code has no other length-dependent branch)
-                cand = set([0, 1, L // 2, L - 1, L]) | set(x + d for x in (bs - pad, bs, 2 * bs) for d in (-1, 0, 1))
+                cand = set([0, 1, L // 2, L]) | set([bs - 1, bs, bs + 1])
                 for a_ in sorted(x for x in cand if 0 <= x <= L):
                     splits.add((a_, L - a_))
             for a_, b_ in sorted(splits):
@@ -51,7 +51,7 @@ def obligations(tier):
                               instrument=[["--replace-calls", "SHA%d_Transform:cut_transform" % alg]],
                               tier="quick" if q else "thorough", family="sha%d-padding-chunking" % alg,
                               desc="one-shot and 3-chunk streaming feed the FIPS-padded blocks in order into the (abstract) compression chain",
-                              bounds="all message bytes; (len, split a, split b) enumerated: quick boundary lengths x boundary splits; thorough every len 0..2*block+6 x <= 14 two-chunk splits (ends, middle, block and padding boundaries +-1) + boundary 3-chunk splits"))
+                              bounds="all message bytes; (len, split a, split b) enumerated: quick boundary lengths x boundary splits; thorough every len 0..2*block+6 x <= 7 two-chunk splits (ends, middle, block boundary +-1) + boundary 3-chunk splits"))
     HU = {256: ["crypto_auth/hmacsha256/auth_hmacsha256.c", "crypto_kdf/hkdf/kdf_hkdf_sha256.c"],
           512: ["crypto_auth/hmacsha512/auth_hmacsha512.c", "crypto_kdf/hkdf/kdf_hkdf_sha512.c"],
           512256: ["crypto_auth/hmacsha512/auth_hmacsha512.c", "crypto_auth/hmacsha512256/auth_hmacsha512256.c", "crypto_auth/crypto_auth.c"]}
